@@ -119,6 +119,21 @@ def handleZone (toks : List String) : Option String :=
         let date ← IsoDate.newWithOverflow y m d .reject
         interpretOffset date time isExact off tz dis oo : Out Int).render toString)
     | _ => none
+  | "tz_rel" :: z :: y :: m :: d :: rest => do
+    let tz ← zone? z; let y ← int? y; let m ← int? m; let d ← int? d
+    let time ← optTime? (rest.take 6)
+    match rest.drop 6 with
+    | [off, kind, _] => do
+      let (isExact, off) ← (if off == "Z" then some (true, none) else do let o ← optInt? off; some (false, o))
+      let (isExact, off) := if time.isNone then (false, none) else (isExact, off)
+      if kind == "plain" then
+        -- no annotation: the date of the string as a plain date (time and offset play no part; `Z` is refused)
+        some (if isExact then "err range" else (plainDateTryNew y m d).render (fun r => "plain " ++ r.render))
+      else
+        some ((do
+          let date ← IsoDate.newWithOverflow y m d .constrain
+          interpretOffset date time isExact off tz .compatible .reject : Out Int).render (fun n => s!"zoned {n}"))
+    | _ => none
   | op :: z :: ns :: rest =>
     if op == "zdt_add" || op == "zdt_sub" then do
       let tz ← zone? z; let ns ← int? ns
